@@ -125,6 +125,55 @@ Proof.
 Qed.
 End V0.
 
+(* ---------------------------------------------------------------- NumPy broadcasting in tucker_normalize: nothing is stretched on a valid operand *)
+Section VB.
+Context {F : Type} (Op : fops F).
+Lemma bshape_ones : forall sh, bshape sh (repeat 1 (length sh)) = Some sh.
+Proof.
+  induction sh as [|x sh IH]; [reflexivity|]. cbn [length repeat bshape]. rewrite IH. unfold bdim.
+  destruct (Nat.eqb_spec x 1) as [->|H]; [reflexivity|]. cbn [Nat.eqb]. reflexivity.
+Qed.
+Lemma bshape_axis : forall sh i, i < length sh ->
+  bshape sh (repeat 1 i ++ nth i sh 0 :: repeat 1 (length sh - i - 1)) = Some sh.
+Proof.
+  induction sh as [|x sh IH]; intros i Hi; cbn [length] in *; [lia|]. destruct i as [|i].
+  - cbn [repeat app nth bshape]. replace (S (length sh) - 0 - 1) with (length sh) by lia. rewrite bshape_ones.
+    unfold bdim. now rewrite Nat.eqb_refl.
+  - cbn [repeat app nth bshape]. replace (S (length sh) - S i - 1) with (length sh - i - 1) by lia. rewrite (IH i) by lia.
+    unfold bdim. destruct (Nat.eqb_spec x 1) as [->|H]; [reflexivity|]. cbn [Nat.eqb]. reflexivity.
+Qed.
+Lemma bproj_inb : forall sh idx, inb sh idx -> bproj sh idx = idx.
+Proof.
+  induction sh as [|d sh IH]; intros [|j idx] H; cbn in *; try tauto. destruct H as [Hj H]. unfold bproj in *. cbn [combine map fst snd].
+  rewrite (IH idx H). destruct (Nat.eqb_spec d 1) as [->|_]; [f_equal; lia|reflexivity].
+Qed.
+Lemma bproj_axis : forall sh idx i, inb sh idx -> i < length sh ->
+  nth i (bproj (repeat 1 i ++ nth i sh 0 :: repeat 1 (length sh - i - 1)) idx) 0 = nth i idx 0.
+Proof.
+  induction sh as [|d sh IH]; intros [|j idx] i H Hi; cbn [length] in *; try lia; cbn in H; try tauto. destruct H as [Hj H].
+  destruct i as [|i].
+  - cbn [repeat app nth]. unfold bproj. cbn [combine map fst snd nth]. destruct (Nat.eqb_spec d 1) as [->|_]; [lia|reflexivity].
+  - cbn [repeat app nth]. unfold bproj. cbn [combine map fst snd nth].
+    replace (S (length sh) - S i - 1) with (length sh - i - 1) by lia. apply (IH idx i H). lia.
+Qed.
+(* iteration i of tucker_normalize's loop on a core whose mode i has as many entries as the scale vector: the shape is kept and
+   entry idx is multiplied by scales[idx_i] -- the no-broadcast step of tucker_normalize (Model/Transforms.v) *)
+Theorem tk_norm_step_valid i (sc : list F) (core : tensor F) :
+  i < length (shape core) -> length sc = nth i (shape core) 0 ->
+  exists t, tk_norm_step Op i sc core = Ok t /\ shape t = shape core /\
+    forall idx, inb (shape core) idx -> tget Op t idx = fmul Op (tget Op core idx) (vget Op sc (nth i idx 0)).
+Proof.
+  intros Hi Hs. unfold tk_norm_step. apply Nat.ltb_lt in Hi as Hi'. rewrite Hi'. cbv zeta.
+  assert (HL : length (repeat 1 i ++ [length sc] ++ repeat 1 (length (shape core) - i - 1)) = length (shape core)).
+  { rewrite !app_length, !repeat_length. simpl. lia. }
+  rewrite HL, Nat.sub_diag. cbn [repeat skipn]. change ([] ++ shape core) with (shape core). rewrite Hs.
+  change ([nth i (shape core) 0] ++ repeat 1 (length (shape core) - i - 1)) with (nth i (shape core) 0 :: repeat 1 (length (shape core) - i - 1)).
+  rewrite (bshape_axis (shape core) i Hi).
+  eexists. split; [reflexivity|]. split; [reflexivity|]. intros idx Hin.
+  unfold tget at 1. rewrite get_tabulate by assumption. rewrite (bproj_inb _ _ Hin). now rewrite (bproj_axis _ _ _ Hin Hi).
+Qed.
+End VB.
+
 Section V1.
 Context {F : Type} (Op : fops F) (close : F -> F -> bool).
 Hypothesis Rth : ring_theory (f0 Op) (f1 Op) (fadd Op) (fmul Op) (fsub Op) (fopp Op) (@eq F).
